@@ -513,4 +513,29 @@ example : cgLir [⟨true, some 1, [], []⟩, ⟨false, none, [], []⟩] = .error
 /-- without a constant in between, order does not matter (one finalize at the end) -/
 example : (cgLir [⟨false, none, [some 1], []⟩, ⟨false, none, [], []⟩]).map (·.runs) = .ok [] := by decide
 
+/-- The same condition in closed form (`lirReady`, decided positionally without
+running anything: every symbol is declared; a body only reads *earlier
+constants*; for every constant, its drop function and every symbol any body up
+to its position refers to sit at or before that position; at the end everything
+referred to is in the list): it implies that the loop completes — and hence, by
+`init_runs_closed`, that whenever an initialiser runs everything it can call is
+defined.  (The converse is checked on every real item list by the harness:
+`lirReady` and `cgLir` must agree.) -/
+theorem cgLir_ok_of_ready (items : List LItem) (h : lirReady items = true) :
+    ∃ st, cgLir items = .ok st ∧
+      st.runs.map Prod.fst = constPositions 0 items ∧
+      (∀ c D S, (c, D, S) ∈ st.runs →
+        c ∈ D ∧ ∀ x, LReach items c x →
+          x ∈ D ∧ ∀ k, LReads items x k → k ∈ S ∧ Before k c (st.runs.map Prod.fst)) := by
+  obtain ⟨st, hst⟩ := cgLir_ok_of_ready' items h
+  obtain ⟨h1, h2, _⟩ := init_runs_closed items st hst
+  exact ⟨st, hst, h1, h2⟩
+
+example : lirReady [⟨false, none, [], []⟩, ⟨false, none, [], []⟩, ⟨true, some 1, [some 0], []⟩,
+    ⟨false, none, [some 0], [some 2]⟩] = true := by decide
+example : lirReady [⟨false, none, [], []⟩, ⟨true, some 0, [some 3], []⟩, ⟨false, none, [some 3], [some 1]⟩,
+    ⟨false, none, [], []⟩] = false := by decide
+example : lirReady [⟨false, none, [], []⟩, ⟨false, none, [some 3], []⟩, ⟨true, some 0, [some 1], []⟩,
+    ⟨false, none, [], []⟩] = false := by decide
+
 end RotoV.C14
